@@ -12,6 +12,9 @@
      C02_roundtrip_properties_partial      single-record files  key sep value newline
      C02_blocks_properties, C02_roundtrip_properties_multi   block theorem, .properties
      C02_blocks_ini, C02_roundtrip_ini_multi                 block theorem, .ini
+     C02_blocks_inc, C02_roundtrip_inc_multi, _nojunk        block theorem, .inc (filter state)
+     C02_blocks_dtd(_bom), C02_roundtrip_dtd_multi(_bom)     block theorem, .dtd
+     C02_blocks_properties_junk, C02_junk_properties         junk regions in .properties
    Stated, not proved (see the end of the file): what is still missing of
    C02_roundtrip_<fmt> of DESIGN.md section 4; those clauses are covered by the
    implementation-only oracle of harness/props/c02.py (printed files, all seven formats). *)
@@ -20,7 +23,8 @@ From CL Require Import Base.Sx Base.Res Base.Str Regex.Rx Model.Entry Model.Pars
   Model.ParseFormats Generated.RxParser Generated.RxC02 Generated.C02Facts Model.Unescape
   Proofs.C02License Proofs.UnescapeProofs Proofs.C02Po Proofs.C02Props Proofs.C02Roundtrip
   Proofs.C02Blocks.
-From CL Require Proofs.C02BlocksIni.
+From CL Require Proofs.C02BlocksIni Proofs.C02BlocksInc Proofs.C02BlocksJunkRx Proofs.C02BlocksJunk
+  Proofs.C02BlocksDtd.
 Import ListNotations.
 
 (* ---- (a) the License rule -------------------------------------------------------------
@@ -274,10 +278,174 @@ Example C02_blocks_ini_example :
    (KSection, (49, 54)); (KWhitespace, (54, 56)); (KEntity, (56, 59))].
 Proof. split; [repeat constructor|]. split; [vm_compute; reflexivity|]. repeat split. Qed.
 
+(* ---- the block theorem for .inc (DefinesParser) -------------------------------------------
+   Proofs/C02BlocksInc.v.  An [nblock] is a run of n newlines, a standalone comment (lines
+   "# text"), an instruction "#word blanks rest" or an entity "#define blanks KEY [blank VALUE]"
+   with an optional attached comment.  [legal_nblock]: KEY and the instruction word are
+   non-empty runs of word characters (the generated table of \w), the word does not begin
+   "define", VALUE and the rest of an instruction contain no newline.  [nadjacent_ok]: a comment
+   block is followed by the end of the file, empty lines or an instruction; a block without
+   its final newline is the last one.
+   [nentries_of] threads the parser's filter state through the blocks: "#filter emptyLines"
+   switches it on, "#unfilter emptyLines" off; a run of newlines (with the newline ending the
+   line before it) is ONE Whitespace entry when it is a single newline or the filter is on,
+   and ONE Junk entry otherwise, and always at offset 0. *)
+Theorem C02_blocks_inc : forall bs : list C02BlocksInc.nblock,
+  Forall C02BlocksInc.legal_nblock bs -> C02BlocksInc.nadjacent_ok bs ->
+  walk_defines (C02BlocksInc.nfile_text bs) = Ok (C02BlocksInc.nentries_of bs).
+Proof. exact C02BlocksInc.blocks_inc. Qed.
+
+(* the entities are exactly the records (KEY, VALUE or none, attached comment), the comment
+   entries the comment blocks, the instruction entries the instruction texts, in order, and
+   every Junk entry is a run of newlines:
+     nviews s es bs :=
+       map (entity_nrecord s) (filter (is_kind KEntity) es) = nrecords_of bs /\
+       map (fun e => span_text s (e_span e)) (filter (is_kind KComment) es) = ncomments_of bs /\
+       map (fun e => opt_text s (e_val e)) (filter (is_kind KInstruction) es) = ninstrs_of bs /\
+       forallb (fun e => all_nl (span_text s (e_span e))) (filter (is_kind KJunk) es) = true *)
+Theorem C02_roundtrip_inc_multi : forall bs : list C02BlocksInc.nblock,
+  Forall C02BlocksInc.legal_nblock bs -> C02BlocksInc.nadjacent_ok bs ->
+  exists es, walk_defines (C02BlocksInc.nfile_text bs) = Ok es /\
+             C02BlocksInc.nviews (C02BlocksInc.nfile_text bs) es bs.
+Proof. exact C02BlocksInc.roundtrip_inc_multi. Qed.
+
+(* [nblanks_ok false true bs]: the file does not start with an empty line and every run of
+   empty lines lies where the filter is on (computed from the instructions in the blocks):
+   then there is NO junk *)
+Theorem C02_roundtrip_inc_nojunk : forall bs : list C02BlocksInc.nblock,
+  Forall C02BlocksInc.legal_nblock bs -> C02BlocksInc.nadjacent_ok bs ->
+  C02BlocksInc.nblanks_ok false true bs = true ->
+  exists es, walk_defines (C02BlocksInc.nfile_text bs) = Ok es /\
+             C02BlocksInc.nviews (C02BlocksInc.nfile_text bs) es bs /\
+             filter (C02BlocksInc.is_kind KJunk) es = [].
+Proof. exact C02BlocksInc.roundtrip_inc_nojunk. Qed.
+
+(*  # s / #    #filter emptyLines  <1 empty line>  #define k v w  <2 empty lines>
+    # c / #define<tab>k2   #unfilter emptyLines   #define k v w  <1 empty line: junk now>
+    # c / #define<tab>k2   #inc <blank,tab>x.y   # s / #   <1 empty line: junk>   #define  _1<tab>  *)
+Example C02_blocks_inc_example :
+  let bs := [C02BlocksInc.nx_c; C02BlocksInc.nx_filter; C02BlocksInc.nx_b1; C02BlocksInc.nx_e1; C02BlocksInc.nx_b2; C02BlocksInc.nx_e2;
+             C02BlocksInc.nx_unfilter; C02BlocksInc.nx_e1; C02BlocksInc.nx_b1; C02BlocksInc.nx_e2; C02BlocksInc.nx_incl; C02BlocksInc.nx_c;
+             C02BlocksInc.nx_b1; C02BlocksInc.nx_e3] in
+  Forall C02BlocksInc.legal_nblock bs /\ C02BlocksInc.nadjacent_ok bs /\
+  C02BlocksInc.nblanks_ok false true bs = false /\
+  map (fun e => (e_kind e, e_span e)) (C02BlocksInc.nentries_of bs) =
+  [(KComment, (0, 6)); (KWhitespace, (6, 7)); (KInstruction, (7, 25)); (KWhitespace, (25, 27));
+   (KEntity, (27, 40)); (KWhitespace, (40, 43)); (KEntity, (47, 57)); (KWhitespace, (57, 58));
+   (KInstruction, (58, 78)); (KWhitespace, (78, 79)); (KEntity, (79, 92)); (KJunk, (92, 94));
+   (KEntity, (98, 108)); (KWhitespace, (108, 109)); (KInstruction, (109, 118));
+   (KWhitespace, (118, 119)); (KComment, (119, 125)); (KJunk, (125, 127)); (KEntity, (127, 139))].
+Proof. split; [repeat constructor|]. split; [vm_compute; reflexivity|]. split; vm_compute; reflexivity. Qed.
+
+(* ---- junk regions in .properties ("exactly the garbage is junk") ----------------------------
+   Proofs/C02BlocksJunk.v.  A [jblock] is a block of C02_blocks_properties or a garbage region
+   [JG gl]: lines (each ended by a newline) that contain none of "=" ":" "#" "!", the first of
+   which starts with a non-whitespace character ([legal_garbage], boolean).  [jadjacent_ok]:
+   as before, and a garbage region is followed by the end of the file, a comment or an entity
+   (blank lines and further garbage lines are lines of the same region) and is not directly
+   preceded by a standalone comment block.  [jentries_of] = the entries of the blocks with ONE
+   Junk entry per region, covering exactly that region.  Any number of regions. *)
+Theorem C02_blocks_properties_junk : forall bs : list C02BlocksJunk.jblock,
+  Forall C02BlocksJunk.legal_jblock bs -> C02BlocksJunk.jadjacent_ok bs ->
+  walk_properties (C02BlocksJunk.jfile_text bs) = Ok (C02BlocksJunk.jentries_of bs).
+Proof. exact C02BlocksJunk.blocks_properties_junk. Qed.
+
+(* one garbage region inserted between two legal block lists: every record and every
+   standalone comment of both lists is recovered unchanged, in order, and there is exactly ONE
+   Junk entry; its span starts where the text of the first list ends and covers exactly the
+   garbage *)
+Theorem C02_junk_properties : forall (bs1 : list C02Blocks.block) (gl : list str) (bs2 : list C02Blocks.block),
+  Forall C02Blocks.legal_block bs1 -> C02BlocksJunk.legal_garbage gl = true ->
+  Forall C02Blocks.legal_block bs2 ->
+  C02BlocksJunk.jadjacent_ok (C02BlocksJunk.with_garbage bs1 gl bs2) ->
+  let s := C02Blocks.file_text bs1 ++ C02BlocksJunkRx.gtext gl ++ C02Blocks.file_text bs2 in
+  let p := length (C02Blocks.file_text bs1) in
+  exists es, walk_properties s = Ok es /\
+    map (C02Blocks.entity_record s) (filter (C02Blocks.is_kind KEntity) es) =
+      C02Blocks.records_of bs1 ++ C02Blocks.records_of bs2 /\
+    map (fun e => C02Blocks.span_text s (e_span e)) (filter (C02Blocks.is_kind KComment) es) =
+      C02Blocks.comments_of bs1 ++ C02Blocks.comments_of bs2 /\
+    filter (C02Blocks.is_kind KJunk) es = [mk_junk (p, p + length (C02BlocksJunkRx.gtext gl))] /\
+    slice s p (p + length (C02BlocksJunkRx.gtext gl)) = C02BlocksJunkRx.gtext gl.
+Proof. exact C02BlocksJunk.junk_one_region. Qed.
+
+(*  k=v / garb, <empty line>, " x y" / #c1 !c2 "a b = x y" / k=v : the premises hold, the region
+    is at offsets 4..15; and a longer file with three regions, by evaluation *)
+Example C02_junk_properties_example :
+  let A := C02Blocks.A in
+  let gl := [A [103; 97; 114; 98]; []; A [32; 120; 32; 121]] in
+  Forall C02Blocks.legal_block [C02Blocks.ex_e1] /\ C02BlocksJunk.legal_garbage gl = true /\
+  Forall C02Blocks.legal_block [C02Blocks.ex_e2; C02Blocks.ex_e1] /\
+  C02BlocksJunk.jadjacent_ok (C02BlocksJunk.with_garbage [C02Blocks.ex_e1] gl [C02Blocks.ex_e2; C02Blocks.ex_e1]) /\
+  length (C02Blocks.file_text [C02Blocks.ex_e1]) = 4 /\ length (C02BlocksJunkRx.gtext gl) = 11 /\
+  let bs := [C02BlocksJunk.JB C02Blocks.ex_e1; C02BlocksJunk.jx_g; C02BlocksJunk.JB C02Blocks.ex_c;
+             C02BlocksJunk.JB C02Blocks.ex_b; C02BlocksJunk.JB C02Blocks.ex_e3; C02BlocksJunk.JG [A [106]];
+             C02BlocksJunk.JB C02Blocks.ex_e2; C02BlocksJunk.JG [A [122]; []]] in
+  Forall C02BlocksJunk.legal_jblock bs /\ C02BlocksJunk.jadjacent_ok bs /\
+  map (fun e => (e_kind e, e_span e)) (C02BlocksJunk.jentries_of bs) =
+  [(KEntity, (0, 3)); (KWhitespace, (3, 4)); (KJunk, (4, 15)); (KComment, (15, 20));
+   (KWhitespace, (20, 22)); (KEntity, (22, 38)); (KWhitespace, (38, 39)); (KJunk, (39, 41));
+   (KEntity, (49, 58)); (KWhitespace, (58, 59)); (KJunk, (59, 62))].
+Proof.
+  split; [repeat constructor|]. split; [reflexivity|]. split; [repeat constructor|].
+  split; [vm_compute; reflexivity|]. split; [reflexivity|]. split; [reflexivity|].
+  split; [repeat constructor|]. split; vm_compute; reflexivity.
+Qed.
+
+(* ---- the block theorem for .dtd (Proofs/C02BlocksDtd.v, C02BlocksDtdRx.v, C02BlocksDtdPeRx.v) ----
+   Blocks: whitespace runs, standalone comments <!-- ... -->, entity declarations
+   <!ENTITY key "value"> with an optional attached comment, and parameter-entity
+   declarations with their reference; [legal_block] / [adjacent_ok] are the decidable
+   predicates defined there (separation of comments, the License rule below offset 2,
+   what may follow a parameter-entity reference); the _bom variants are for files that
+   start with a byte-order mark. *)
+Theorem C02_blocks_dtd : forall bs : list C02BlocksDtd.block,
+  Forall C02BlocksDtd.legal_block bs -> C02BlocksDtd.adjacent_ok bs ->
+  walk_dtd (C02BlocksDtd.file_text bs) = Ok (C02BlocksDtd.entries_of bs).
+Proof. exact C02BlocksDtd.blocks_dtd. Qed.
+
+Theorem C02_blocks_dtd_bom : forall (mark : bool) (bs : list C02BlocksDtd.block),
+  Forall C02BlocksDtd.legal_block bs -> C02BlocksDtd.adjacent_ok_bom mark bs ->
+  walk_dtd (C02BlocksDtd.file_text_bom mark bs) = Ok (C02BlocksDtd.entries_of_bom mark bs).
+Proof. exact C02BlocksDtd.blocks_dtd_bom. Qed.
+
+Theorem C02_roundtrip_dtd_multi : forall bs : list C02BlocksDtd.block,
+  Forall C02BlocksDtd.legal_block bs -> C02BlocksDtd.adjacent_ok bs ->
+  exists es, walk_dtd (C02BlocksDtd.file_text bs) = Ok es /\
+    map (C02Blocks.entity_record (C02BlocksDtd.file_text bs)) (filter (C02Blocks.is_kind KEntity) es) =
+      C02BlocksDtd.records_of bs /\
+    map (fun e => C02Blocks.span_text (C02BlocksDtd.file_text bs) (e_span e))
+        (filter (C02Blocks.is_kind KComment) es) = C02BlocksDtd.comments_of bs /\
+    filter (C02Blocks.is_kind KJunk) es = [].
+Proof. exact C02BlocksDtd.C02_roundtrip_dtd_multi. Qed.
+
+Theorem C02_roundtrip_dtd_multi_bom : forall bs : list C02BlocksDtd.block,
+  Forall C02BlocksDtd.legal_block bs -> C02BlocksDtd.adjacent_ok_bom true bs -> bs <> [] ->
+  let s := C02BlocksDtd.file_text_bom true bs in
+  exists es, walk_dtd s = Ok es /\
+    map (C02Blocks.entity_record s) (filter (C02Blocks.is_kind KEntity) es) = C02BlocksDtd.records_of bs /\
+    map (fun e => C02Blocks.span_text s (e_span e)) (filter (C02Blocks.is_kind KComment) es) =
+      C02BlocksDtd.comments_of bs /\
+    filter (C02Blocks.is_kind KJunk) es = [].
+Proof. exact C02BlocksDtd.C02_roundtrip_dtd_multi_bom. Qed.
+
+(* the premises hold of a file with all block kinds (an entity with attached comment, bare
+   entities, a standalone comment, whitespace), by evaluation *)
+Example C02_blocks_dtd_example :
+  let bs := [C02BlocksDtd.ex_e1; C02BlocksDtd.ex_b; C02BlocksDtd.ex_e2; C02BlocksDtd.ex_b2;
+             C02BlocksDtd.ex_c; C02BlocksDtd.ex_b2; C02BlocksDtd.ex_e1] in
+  Forall C02BlocksDtd.legal_block bs /\ C02BlocksDtd.adjacent_ok bs /\
+  walk_dtd (C02BlocksDtd.file_text bs) = Ok (C02BlocksDtd.entries_of bs) /\
+  length (C02BlocksDtd.records_of bs) = 3.
+Proof.
+  destruct C02BlocksDtd.ex_dtd_blocks as [H1 [H2 [H3 _]]]. split; [exact H1|]. split; [exact H2|].
+  split; [exact H3|]. reflexivity.
+Qed.
+
 (* ---- stated, NOT PROVED ---------------------------------------------------------------------
-   Still missing from the block theorem above: junk regions (inert garbage between records:
-   "exactly the garbage is reported as junk"), blanks between a value and its newline,
-   indentation between an attached comment and its key; and the whole statement
-   C02_roundtrip_<fmt> for dtd, inc, po (nothing proved there beyond C01 and the license
-   and unescape theorems); for ini also junk regions.  The executable counterpart of all of it is the oracle of
-   harness/props/c02.py for all seven formats. *)
+   Still missing: the block theorem for .po (msgctxt / msgid / msgstr string lists with attached
+   comments); junk regions for ini, inc, dtd; in .properties blanks between a value and its
+   newline, indentation between an attached comment and its key, garbage that shares a line
+   with a following comment, garbage without final newline at the end of the file; Fluent and
+   Android (library parsers: oracle only).  The executable counterpart of all of it is the
+   oracle of harness/props/c02.py for all seven formats. *)
